@@ -81,7 +81,7 @@ fn snap_json<K: Kit>(s: &Snap<K>) -> Value {
 }
 
 fn replay<K: Kit>(prop: &str, tier: &str, idx: usize, st: &Step<K>, extra: Value) -> Value {
-    json!({"kind": "tree", "prop": prop, "tier": tier, "scenario_index": idx, "hist": st.hist, "letter": st.letter,
+    json!({"kind": "tree", "prop": prop, "tier": tier, "scenario_index": idx, "hist": st.hist, "letter": st.letter, "batch": st.batch,
            "scenario": st.sc.json(), "pre": snap_json::<K>(st.pre), "post": snap_json::<K>(st.post),
            "result": match st.result { Ok(p) => json!({"ok": p.iter().map(|s| K::to_v(s).json()).collect::<Vec<_>>()}), Err(e) => json!(format!("{e:?}")) },
            "detail": extra})
@@ -539,7 +539,11 @@ fn c17<K: Kit>(tier: &str, idx: usize, st: &Step<K>, rep: &mut Report) {
                 fail("rewired-non-neighbour", format!("node {i} at distance {} >= radius {radius} was rewired", dx[i]), rep);
                 return;
             }
-            if !(via < pre[i].2 + (1e-9 + 1e-12 * via.abs())) {
+            // "strictly cheaper": whichever way the edge length is computed, the new route must not
+            // be definitely at least as expensive as the old one (exact ties — duplicates of one
+            // state — are definite)
+            let via_rev = c + sp.distance(&pre[i].0, x);
+            if via.min(via_rev) >= pre[i].2 {
                 fail("rewire-not-cheaper", format!("node {i} rewired although cost via new node {via} >= old cost {}", pre[i].2), rep);
                 return;
             }
@@ -598,7 +602,7 @@ fn run_one<K: Kit>(prop: &'static str, tier: &'static str, idx: usize, sc: &Scen
     };
     let oc = on_caught_for(prop, tier, idx, sc);
     let max_states = if tier == "quick" { 200_000 } else { 2_000_000 };
-    bfs_tree::<K>(sc, &letters, depth, max_states, &mut rep, &on_step, &oc);
+    bfs_tree::<K>(sc, &letters, depth, max_states, true, &mut rep, &on_step, &oc);
     rep
 }
 
@@ -663,10 +667,11 @@ pub fn replay_file(v: &Value) -> i32 {
     let idx = v["scenario_index"].as_u64().unwrap() as usize;
     let hist: Vec<u8> = v["hist"].as_array().unwrap().iter().map(|x| x.as_u64().unwrap() as u8).collect();
     let letter = v["letter"].as_u64().unwrap() as u8;
+    let batch = v["batch"].as_bool().unwrap_or(false);
     let all = scenarios(prop, tier);
     let sc = &all[idx];
-    let r1 = with_kit!(sc.kit, replay_one(prop, tier, idx, sc, &hist, letter));
-    let r2 = with_kit!(sc.kit, replay_one(prop, tier, idx, sc, &hist, letter));
+    let r1 = with_kit!(sc.kit, replay_one(prop, tier, idx, sc, &hist, letter, batch));
+    let r2 = with_kit!(sc.kit, replay_one(prop, tier, idx, sc, &hist, letter, batch));
     let k1: Vec<_> = r1.viol_counts.keys().cloned().collect();
     let k2: Vec<_> = r2.viol_counts.keys().cloned().collect();
     if k1 != k2 || r1.distinct != r2.distinct {
@@ -686,21 +691,37 @@ pub fn replay_file(v: &Value) -> i32 {
 }
 
 /// Re-executes exactly one transition (history, letter) and applies the oracle.
-fn replay_one<K: Kit>(prop: &'static str, tier: &'static str, idx: usize, sc: &Scenario, hist: &[u8], letter: u8) -> Report {
+fn replay_one<K: Kit>(prop: &'static str, tier: &'static str, idx: usize, sc: &Scenario, hist: &[u8], letter: u8, batch: bool) -> Report {
     let mut rep = Report::new();
     let r = crate::explore::guarded(|| {
+        // the pre-state is the one the explorer recorded: history replayed, then a fresh call
         let mut rig = Rig::<K>::new(sc, true);
         rig.logging(true);
         if !hist.is_empty() {
             rig.feed(hist);
         }
         let pre = rig.snapshot();
-        let log_mark = rig.world.log.borrow().len();
-        let cb_before = crate::seams::cb_counts();
-        let (result, used) = rig.solve_script(&[letter]);
-        let cb_after = crate::seams::cb_counts();
-        let post = rig.snapshot();
-        (rig, pre, post, result, used, log_mark, cb_before, cb_after)
+        if !batch {
+            let log_mark = rig.world.log.borrow().len();
+            let cb_before = crate::seams::cb_counts();
+            let (result, used) = rig.solve_script(&[letter]);
+            let cb_after = crate::seams::cb_counts();
+            let post = rig.snapshot();
+            (rig, pre, post, result, used, log_mark, cb_before, cb_after)
+        } else {
+            let mut h2 = hist.to_vec();
+            h2.push(letter);
+            let mut rig = Rig::<K>::new(sc, true);
+            rig.logging(true);
+            let mut calls = rig.feed(&h2);
+            let post = rig.snapshot();
+            let marks = crate::seams::sample_marks();
+            let cb_after = crate::seams::cb_counts();
+            let (seq, cb_before) = marks.last().cloned().unwrap();
+            let log_mark = rig.world.log.borrow().iter().position(|(q, _, _)| *q > seq).unwrap_or(rig.world.log.borrow().len());
+            let (result, _) = calls.pop().unwrap();
+            (rig, pre, post, result, 1, log_mark, cb_before, cb_after)
+        }
     });
     match r {
         Err(c) => {
@@ -711,7 +732,7 @@ fn replay_one<K: Kit>(prop: &'static str, tier: &'static str, idx: usize, sc: &S
             let mut k = post.key();
             k.push(0);
             rep.distinct.insert(crate::report::h128(&k));
-            let st = Step { sc, hist, letter, pre: &pre, post: &post, result: &result, rig: &rig, log_mark, cb_before, cb_after, used };
+            let st = Step { sc, hist, letter, pre: &pre, post: &post, result: &result, rig: &rig, log_mark, cb_before, cb_after, used, batch };
             match prop {
                 "C15" => c15::<K>(tier, idx, &st, &mut rep),
                 "C16" => c16::<K>(tier, idx, &st, &mut rep),
